@@ -9,6 +9,7 @@ CONSTANTS
   MaxOps = 2
   HasUpper = TRUE
   Known = {}
+  AsFound = {}
   UpperTypes = {"none", "file", "dir", "wh"}
   LowerTypes = {"none", "file", "dir"}
 INVARIANTS LoadAgrees LiveIsView StatusAgrees RestartSame LowersFrozen
